@@ -6,14 +6,20 @@ package main
 import (
 	"bytes"
 	"context"
+	"errors"
 	"flag"
 	"fmt"
+	"io"
+	"os"
 	"sort"
 	"strconv"
 	"strings"
-	"os"
 	"sync"
 	"time"
+
+	"github.com/pingcap/log"
+	"go.uber.org/zap"
+	"go.uber.org/zap/zapcore"
 
 	"github.com/pingcap/kvproto/pkg/metapb"
 	"github.com/tikv/pd/pkg/mock/mockid"
@@ -29,13 +35,14 @@ import (
 )
 
 type world struct {
-	ctx     context.Context
-	cancel  context.CancelFunc
-	rc      *cluster.RaftCluster
-	storage *core.Storage
-	gate    *gateKV
-	dir     string                 // leveldb directory of the region storage (leveldb mode)
-	held    map[int]*heldHeartbeat // heartbeats parked at their first storage write
+	ctx      context.Context
+	cancel   context.CancelFunc
+	rc       *cluster.RaftCluster
+	storage  *core.Storage
+	gate     *gateKV
+	dir      string                 // leveldb directory of the region storage (leveldb mode)
+	held     map[int]*heldHeartbeat // heartbeats parked at their first storage write
+	panicked bool
 }
 
 // gateKV wraps the kv.Base of core.Storage (an exported embedded interface): when armed, the next Save or Remove
@@ -46,6 +53,22 @@ type gateKV struct {
 	armed   bool
 	parked  chan struct{}
 	release chan struct{}
+	failing bool // the next Save fails (one shot)
+}
+
+var errInjected = errors.New("injected storage failure")
+
+func (g *gateKV) failNext() {
+	g.mu.Lock()
+	g.failing = true
+	g.mu.Unlock()
+}
+
+// renderingLogger replaces pd's global logger by one that RENDERS every entry of the given level and above
+// (fields included, which is where Stringer fields such as RegionToHexMeta run) into a discard sink.
+func renderingLogger(level zapcore.Level) {
+	core := zapcore.NewCore(zapcore.NewJSONEncoder(zap.NewProductionEncoderConfig()), zapcore.AddSync(io.Discard), level)
+	log.ReplaceGlobals(zap.New(core), &log.ZapProperties{Core: core, Level: zap.NewAtomicLevelAt(level)})
 }
 
 func (g *gateKV) arm() (parked, release chan struct{}) {
@@ -74,12 +97,33 @@ func (g *gateKV) maybePark() {
 	<-r
 }
 
-func (g *gateKV) Save(k, v string) error { g.maybePark(); return g.Base.Save(k, v) }
-func (g *gateKV) Remove(k string) error  { g.maybePark(); return g.Base.Remove(k) }
+func (g *gateKV) Save(k, v string) error {
+	g.maybePark()
+	g.mu.Lock()
+	fail := g.failing
+	g.failing = false
+	g.mu.Unlock()
+	if fail {
+		return errInjected
+	}
+	return g.Base.Save(k, v)
+}
+func (g *gateKV) Remove(k string) error { g.maybePark(); return g.Base.Remove(k) }
 
 type heldHeartbeat struct {
 	release chan struct{}
 	done    chan string
+}
+
+// handle runs one heartbeat; a panic (possible in any goroutine) becomes the answer "panic"
+func (w *world) handle(r *core.RegionInfo) (out string) {
+	defer func() {
+		if e := recover(); e != nil {
+			w.panicked = true
+			out = "panic"
+		}
+	}()
+	return verdict(w.rc.VerifProcessRegionHeartbeat(r))
 }
 
 func (w *world) letGo() {
@@ -91,6 +135,7 @@ func (w *world) letGo() {
 }
 
 func (w *world) reset(leveldb bool) {
+	w.panicked = false
 	w.letGo()
 	if w.cancel != nil {
 		w.cancel()
@@ -207,7 +252,7 @@ func (w *world) exec(op string) string {
 		r := regionh.ParseSpec(f[2:]).Region()
 		parked, release := w.gate.arm()
 		done := make(chan string, 1)
-		go func() { done <- verdict(w.rc.VerifProcessRegionHeartbeat(r)) }()
+		go func() { done <- w.handle(r) }()
 		select {
 		case <-parked:
 			w.held[i] = &heldHeartbeat{release: release, done: done}
@@ -227,6 +272,18 @@ func (w *world) exec(op string) string {
 		close(h.release)
 		v := <-h.done
 		delete(w.held, i)
+		return fmt.Sprintf("%s S=%s M=%s", v, w.served(), w.stored())
+	case len(f) >= 11 && f[0] == "hbf":
+		// the heartbeat's SaveRegion fails (the pinned code logs the error and carries on)
+		if w.gate == nil {
+			return "bad-op"
+		}
+		r := regionh.ParseSpec(f[1:]).Region()
+		w.gate.failNext()
+		v := verdict(w.rc.VerifProcessRegionHeartbeat(r))
+		w.gate.mu.Lock()
+		w.gate.failing = false
+		w.gate.mu.Unlock()
 		return fmt.Sprintf("%s S=%s M=%s", v, w.served(), w.stored())
 	case len(f) >= 11 && f[0] == "hb":
 		r := regionh.ParseSpec(f[1:]).Region()
@@ -254,7 +311,7 @@ func (w *world) exec(op string) string {
 			go func(i int, r *core.RegionInfo) {
 				defer wg.Done()
 				<-start
-				res[i] = verdict(w.rc.VerifProcessRegionHeartbeat(r))
+				res[i] = w.handle(r)
 			}(i, r)
 		}
 		close(start)
@@ -278,8 +335,22 @@ func (w *world) exec(op string) string {
 	return "bad-op"
 }
 
-func (w *world) run(t *trace.W, op string) string {
-	out := w.exec(op)
+func (w *world) run(t *trace.W, op string) (out string) {
+	defer func() {
+		if e := recover(); e != nil {
+			// a panic inside the heartbeat path leaves the cluster lock held and the cache half-updated: it is
+			// reported as the observation "panic" (the monitor flags it) and nothing more runs until the next reset
+			w.panicked = true
+			out = "panic"
+			t.Line(op, out)
+		}
+	}()
+	if w.panicked && !strings.HasPrefix(op, "reset") {
+		out = "skipped-after-panic"
+		t.Line(op, out)
+		return out
+	}
+	out = w.exec(op)
 	t.Line(op, out)
 	return out
 }
@@ -640,7 +711,12 @@ func (g *gen) deliver() {
 		}
 		return
 	}
-	out := g.w.run(g.t, "hb "+s)
+	op := "hb "
+	if !g.ldb && g.r.Bool(1, 12) {
+		op = "hbf " // with a failing SaveRegion
+		g.kinds["hb-save-fails"]++
+	}
+	out := g.w.run(g.t, op+s)
 	g.kinds["hb-"+strings.Fields(out)[0]]++
 	if g.ldb && g.r.Bool(1, 8) {
 		g.kinds["flush"]++
@@ -667,6 +743,16 @@ func (g *gen) deliver() {
 }
 
 func (g *gen) sequence(maxOps int, kind int) {
+	// pd's log entries are rendered (into a discard sink): at debug level in every third sequence, otherwise from
+	// error level up (what a production server renders at least)
+	if g.r.Bool(1, 3) {
+		g.kinds["log-rendered-from-debug"]++
+		g.t.Comment("loglevel debug")
+		renderingLogger(zapcore.DebugLevel)
+	} else {
+		g.t.Comment("loglevel error")
+		renderingLogger(zapcore.ErrorLevel)
+	}
 	if g.ldb {
 		g.kinds["seq-leveldb"]++
 		g.w.run(g.t, "reset leveldb")
@@ -740,6 +826,7 @@ func main() {
 	t := trace.Create(*out)
 	defer t.Close()
 	if *replay != "" {
+		renderingLogger(zapcore.DebugLevel) // replays render everything
 		for _, op := range trace.ReadOps(*replay) {
 			w.run(t, op)
 		}
